@@ -296,6 +296,20 @@ def rule4(P, rep, apis):
                'the blocking get is %scontrol-dependent on the caller\'s pic_send_done flag' % ('' if dep else 'NOT '))
     if not found:
         rep.note('svt_av1_enc_get_packet no longer calls svt_get_full_object directly')
+    # a teardown call may wait for the pipeline threads only after it has told them to quit: the join reachable from
+    # svt_av1_enc_deinit_handle must be dominated, in that same call, by the shutdown signalling (svt_shutdown_process on the
+    # stage FIFOs).  Without it `init_handle; set_parameter; init; deinit_handle` blocks forever in pthread_join.
+    dh = P.fn('svt_av1_enc_deinit_handle')
+    reach_join = {g for g in P.fns if not g.nocfg and any(t.name == 'svt_destroy_thread' for t in P.reachable_from([g]))}
+    reach_sig = {g for g in P.fns if not g.nocfg and any(t.name == 'svt_shutdown_process' for t in P.reachable_from([g]))}
+    joins = [ev for ev, n in dh.calls() if n and any(t in reach_join for t in P.resolve(n, dh))]
+    sigs = [ev for ev, n in dh.calls() if n and any(t in reach_sig for t in P.resolve(n, dh))]
+    if not joins:
+        raise AnalysisBroken('svt_av1_enc_deinit_handle no longer reaches the thread join')
+    okj = all(any(dh.ev_dominates(s_, j) for s_ in sigs) for j in joins)
+    rep.ob('C14.4-BLOCK', 'svt_av1_enc_deinit_handle/join-after-shutdown-signal', okj, dh.loc(joins[0]),
+           'the pipeline threads are told to quit (%s) before the handle destructor joins them' % (callee_name(sigs[0]['e']) if sigs else '?') if okj else
+           'the handle destructor joins the pipeline threads, but this call never tells them to quit: after svt_av1_enc_init, svt_av1_enc_deinit_handle without a preceding svt_av1_enc_deinit blocks forever in pthread_join')
     for n in sorted(used_nt):
         rep.exempt('C14.4-BLOCK', n, NO_TRAVERSE[n])
     # the non-blocking wrapper: its blocking get must be control-dependent on the emptiness peek
